@@ -331,6 +331,8 @@ pub fn var_pool() -> Vec<(VarDecl, Option<JV>)> {
         v("t", "Boolean!", None, Some(JV::Bool(true))),
         v("f", "Boolean!", None, Some(JV::Bool(false))),
         v("d", "Boolean", Some(Lit::Bool(true)), None),
+        // explicit null for a nullable variable with a default: `if: $dn` is then neither true nor false
+        v("dn", "Boolean", Some(Lit::Bool(false)), Some(JV::Null)),
         v("vi", "Int", None, Some(JV::Int(3))),
         v("vn", "Int", None, Some(JV::Null)),
         v("va", "Int", None, None),
@@ -391,7 +393,7 @@ fn leaf_atoms() -> Vec<JV> {
     let _ = LEAF_ATOMS;
     vec![
         JV::Int(0), JV::Int(7), JV::Int(-1), JV::Int((1 << 31) - 1), JV::Int(1 << 31), JV::Int(-(1 << 31) - 1), JV::Int(i64::MAX as i128), JV::Int(i64::MAX as i128 + 1),
-        JV::Float("1.5".into()), JV::Float("3.0".into()), JV::Str("abc".into()), JV::Str("RED".into()), JV::Str("7".into()), JV::Str("".into()),
+        JV::Float("1.5".into()), JV::Float("3.0".into()), JV::Str("abc".into()), JV::Str("RED".into()), JV::Str("red".into()), JV::Str("7".into()), JV::Str("".into()),
         JV::Bool(true), JV::Bool(false), JV::Arr(vec![JV::Int(1)]), JV::Obj(vec![("k".into(), JV::Int(1))]),
     ]
 }
@@ -776,6 +778,12 @@ fn has_skip(rv: &RV) -> bool { match rv { RV::Skip => true, RV::List(xs) => xs.i
 
 /// one case: reference run (creating the world), real run, comparison, invariants, correspondence line
 pub fn one(ctx: &mut Ctx, c: &Compiled, op: &Op, deviate_pct: u32, forced: HashMap<String, RV>, label: &str) {
+    one_w(ctx, c, op, deviate_pct, forced, World::default(), label)
+}
+
+/// like `one`, starting from a world whose table already fixes some `(object id, field)` entries
+/// (`pre.next_id` must lie above every identity used in `pre`)
+pub fn one_w(ctx: &mut Ctx, c: &Compiled, op: &Op, deviate_pct: u32, forced: HashMap<String, RV>, pre: World, label: &str) {
     let text = op.text();
     let doc = match ExecutableDocument::parse_and_validate(&c.schema, &text, "q.graphql") {
         Ok(d) => d,
@@ -799,7 +807,7 @@ pub fn one(ctx: &mut Ctx, c: &Compiled, op: &Op, deviate_pct: u32, forced: HashM
     // reference run; it asks the world generator for every resolver value it needs
     let seed = ctx.rng.next();
     let mut wrng = Rng(seed);
-    let reference = run_reference(&c.sd, op, &vars, WorldGen { rng: &mut wrng, deviate_pct, forced }, World::default());
+    let reference = run_reference(&c.sd, op, &vars, WorldGen { rng: &mut wrng, deviate_pct, forced }, pre);
     let world = reference.world;
     for (k, n) in &reference.stats { ctx.stat_n(&format!("raise:{k}"), *n); }
     let input = format!("{} || {} || vars {} || world {}", c.sd.sdl().replace('\n', " "), text, JV::Obj(vars.clone()).json_text(), world.enc());
@@ -884,11 +892,11 @@ impl<'a> OpGen<'a> {
         match (base.as_str(), &a.ty) {
             ("Int", Ty::Named(_)) => if use_var { AV::Var(rng.pick(&["vi", "vn", "va"]).to_string()) } else if rng.chance(1, 6) { AV::Null } else { AV::Int(rng.below(9) as i128 - 2) },
             ("Int", Ty::NonNullNamed(_)) => if use_var { AV::Var(rng.pick(&["vi", "vn", "va"]).to_string()) } else { AV::Int(rng.below(9) as i128) },
-            ("Int", _) => if use_var { AV::Var("vb".into()) } else { match rng.below(4) { 0 => AV::Int(1), 1 => AV::List(vec![]), 2 => AV::List(vec![AV::Int(1), AV::Var("vi".into())]), _ => AV::Null } },
+            ("Int", _) => if use_var { AV::Var("vb".into()) } else { match rng.below(5) { 0 => AV::Int(1), 1 => AV::List(vec![]), 2 => AV::List(vec![AV::Int(1), AV::Var("vi".into())]), 3 => AV::List(vec![AV::Var(rng.pick(&["vi", "vn", "va"]).to_string()), AV::Int(2)]), _ => AV::Null } },
             ("String", _) => if use_var { AV::Var("vs".into()) } else { AV::Str("lit".into()) },
             ("Color", _) => if use_var { AV::Var("vc".into()) } else if rng.chance(1, 5) { AV::Null } else { AV::Enum("RED".into()) },
             ("Pt", _) => if use_var { AV::Var("vp".into()) } else {
-                let mut kvs = vec![("x".to_string(), if rng.chance(1, 3) { AV::Var("vi".into()) } else { AV::Int(1) })];
+                let mut kvs = vec![("x".to_string(), if rng.chance(1, 3) { AV::Var(rng.pick(&["vi", "vi", "vn", "va"]).to_string()) } else { AV::Int(1) })];
                 if rng.chance(1, 2) { kvs.push(("y".into(), match rng.below(3) { 0 => AV::Null, 1 => AV::Var("vn".into()), _ => AV::Int(2) })); }
                 if rng.chance(1, 3) { kvs.push(("l".into(), match rng.below(3) { 0 => AV::Int(3), 1 => AV::Var("vb".into()), _ => AV::List(vec![AV::Int(1), AV::Int(2)]) })); }
                 if rng.chance(1, 2) { kvs.reverse(); }
@@ -1001,6 +1009,222 @@ fn leaf_subsel(sd: &SchemaD, tyname: &str) -> Vec<Sel> {
     sub
 }
 
+// ───────────────────────── systematic families (audit G5) ─────────────────────────
+
+/// every wrapping of `name` with at most two list layers (2 + 4 + 8 = 14), as type text
+fn all_wrappings(name: &str) -> Vec<String> {
+    let mut out = vec![];
+    for layers in 0..3usize {
+        for bits in 0..(1u32 << (layers + 1)) {
+            let mut t = if bits & 1 == 0 { name.to_string() } else { format!("{name}!") };
+            for k in 1..=layers { t = if bits >> k & 1 == 0 { format!("[{t}]") } else { format!("[{t}]!") }; }
+            out.push(t);
+        }
+    }
+    out
+}
+
+fn list_layers(t: &Ty) -> usize { match t { Ty::List(i) | Ty::NonNullList(i) => 1 + list_layers(i), _ => 0 } }
+
+/// a schema whose root has one field per wrapping (≤ 2 list layers) of an object type and of `Int`
+pub fn schema_c() -> SchemaD {
+    let mut q = vec![fd("self", "Q"), fd("nself", "Q!")];
+    for (k, w) in all_wrappings("N").iter().enumerate() { q.push(fd(&format!("o{k}"), w)); }
+    for (k, w) in all_wrappings("Int").iter().enumerate() { q.push(fd(&format!("i{k}"), w)); }
+    SchemaD {
+        scalars: vec![], enums: vec![], inputs: vec![], interfaces: vec![], unions: vec![],
+        objects: vec![
+            ObjDef { name: "Q".into(), implements: vec![], fields: q },
+            ObjDef { name: "N".into(), implements: vec![], fields: vec![fd("v", "Int!"), fd("o", "Int"), fd("n", "N!"), fd("m", "N")] },
+        ],
+        query: "Q".into(),
+    }
+}
+
+/// the three places a selection is tried at: the root, under a non-null parent, under a nullable parent.
+/// Returns the operation and the identity of the object the selection is made on.
+fn at_position(pos: usize, sel: Vec<Sel>, pre: &mut World) -> Op {
+    let sels = match pos {
+        0 => { let mut v = vec![alias_sel("first", "__typename", vec![])]; v.extend(sel); v.push(alias_sel("last", "__typename", vec![])); v }
+        _ => {
+            let parent = if pos == 1 { "nself" } else { "self" };
+            pre.table.insert((0, parent.to_string()), RV::Object("Q".into(), 1));
+            let mut inner = sel; inner.push(alias_sel("after", "__typename", vec![]));
+            vec![field_sel(parent, inner), alias_sel("last", "__typename", vec![])]
+        }
+    };
+    Op { vars: vec![], sels, frags: vec![] }
+}
+fn holder(pos: usize) -> usize { if pos == 0 { 0 } else { 1 } }
+
+/// Family "propagation": a field error inside ONE object of a (nested) list of objects, for every wrapping of the
+/// list, every failing object, a non-null and a nullable failing field, four kinds of failure, three positions.
+/// Family "item-failure": one ITEM of the (nested) list is itself null / an error / of a wrong kind.
+fn family_propagation(ctx: &mut Ctx, c: &Compiled) {
+    let root = c.sd.object("Q").unwrap().clone();
+    let failures = [RV::Leaf(JV::Null), RV::Error, RV::Leaf(JV::Str("x".into())), RV::List(vec![RV::Leaf(JV::Int(1))])];
+    let bad_items = [RV::Leaf(JV::Null), RV::Error, RV::Object("Ghost".into(), 90), RV::Leaf(JV::Int(1)), RV::Skip];
+    let sub = vec![alias_sel("a", "__typename", vec![]), field_sel("o", vec![]), field_sel("v", vec![]), alias_sel("z", "__typename", vec![])];
+    for f in root.fields.iter().filter(|f| f.name.starts_with('o')) {
+        let layers = list_layers(&f.ty);
+        // object identities 10, 11, 12
+        let obj = |k: usize| RV::Object("N".into(), 10 + k);
+        let (value, n_obj) = match layers {
+            0 => (obj(0), 1),
+            1 => (RV::List(vec![obj(0), obj(1)]), 2),
+            _ => (RV::List(vec![RV::List(vec![obj(0), obj(1)]), RV::List(vec![obj(2)])]), 3),
+        };
+        for pos in 0..3 {
+            // (a) failure inside one object (or in none)
+            for target in 0..=n_obj {
+                for field in ["v", "o"] {
+                    for fail in &failures {
+                        if target == n_obj && (field != "v" || *fail != failures[0]) { continue; } // "no failure" once
+                        let mut pre = World { table: BTreeMap::new(), next_id: 100 };
+                        let op = at_position(pos, vec![field_sel(&f.name, sub.clone())], &mut pre);
+                        pre.table.insert((holder(pos), f.name.clone()), value.clone());
+                        if target < n_obj { pre.table.insert((10 + target, field.to_string()), fail.clone()); }
+                        ctx.stat("family:propagation");
+                        one_w(ctx, c, &op, 0, HashMap::new(), pre, "family");
+                    }
+                }
+            }
+            // (b) one item is bad: every index of the innermost lists, and every index of the outer list
+            if layers == 0 { continue; }
+            let mut variants: Vec<RV> = vec![];
+            for bad in &bad_items {
+                match layers {
+                    1 => for i in 0..2 { let mut xs = vec![obj(0), obj(1)]; xs[i] = bad.clone(); variants.push(RV::List(xs)); },
+                    _ => {
+                        for i in 0..3 {
+                            let mut inner0 = vec![obj(0), obj(1)]; let mut inner1 = vec![obj(2)];
+                            if i < 2 { inner0[i] = bad.clone() } else { inner1[0] = bad.clone() }
+                            variants.push(RV::List(vec![RV::List(inner0), RV::List(inner1)]));
+                        }
+                        for i in 0..2 {
+                            let mut outer = vec![RV::List(vec![obj(0), obj(1)]), RV::List(vec![obj(2)])];
+                            outer[i] = bad.clone();
+                            variants.push(RV::List(outer));
+                        }
+                    }
+                }
+            }
+            for v in variants {
+                let mut pre = World { table: BTreeMap::new(), next_id: 100 };
+                let op = at_position(pos, vec![field_sel(&f.name, sub.clone())], &mut pre);
+                pre.table.insert((holder(pos), f.name.clone()), v);
+                ctx.stat("family:item-failure");
+                one_w(ctx, c, &op, 0, HashMap::new(), pre, "family");
+            }
+        }
+    }
+}
+
+/// Family "int-wrappings": every wrapping of `Int` × the catalogue of resolver values (list-shaped ones in the
+/// quick tier), under a non-null parent (all three positions in the thorough tier).
+fn family_int_wrappings(ctx: &mut Ctx, c: &Compiled) {
+    let root = c.sd.object("Q").unwrap().clone();
+    let cat: Vec<RV> = catalogue(&c.sd).into_iter().filter(|rv| ctx.thorough || matches!(rv, RV::List(_) | RV::Error | RV::Skip | RV::Leaf(JV::Null) | RV::Leaf(JV::Int(7)) | RV::Object(..))).collect();
+    let positions: &[usize] = if ctx.thorough { &[0, 1, 2] } else { &[1] };
+    for f in root.fields.iter().filter(|f| f.name.starts_with('i')) {
+        for rv in &cat {
+            for &pos in positions {
+                let mut pre = World { table: BTreeMap::new(), next_id: 100 };
+                let op = at_position(pos, vec![field_sel(&f.name, vec![])], &mut pre);
+                pre.table.insert((holder(pos), f.name.clone()), rv.clone());
+                ctx.stat("family:int-wrappings");
+                one_w(ctx, c, &op, 0, HashMap::new(), pre, "family");
+            }
+        }
+    }
+}
+
+/// Family "directives": two selections in a row, each one of five kinds (field, spread, inline with / without a
+/// type condition, spread inside an inline fragment), each with one of nine `@skip` / `@include` combinations
+/// (constants, variables true / false / defaulted / explicitly null, both directives at once).  The spreads name
+/// the same fragment, so "visited" and "excluded" interact in every order.
+fn family_directives(ctx: &mut Ctx, c: &Compiled) {
+    let v = |n: &str| Cond::Var(n.to_string());
+    let combos: Vec<Dirs> = vec![
+        Dirs::default(),
+        Dirs { skip: Some(Cond::Const(true)), include: None },
+        Dirs { skip: Some(Cond::Const(false)), include: None },
+        Dirs { skip: None, include: Some(Cond::Const(false)) },
+        Dirs { skip: Some(v("t")), include: None },
+        Dirs { skip: None, include: Some(v("f")) },
+        Dirs { skip: Some(Cond::Const(true)), include: Some(Cond::Const(true)) },
+        Dirs { skip: Some(v("dn")), include: None },
+        Dirs { skip: None, include: Some(v("dn")) },
+        Dirs { skip: Some(v("d")), include: Some(v("t")) },
+        Dirs { skip: Some(v("f")), include: Some(v("d")) },
+    ];
+    let n_combos = if ctx.thorough { combos.len() } else { 9 };
+    let kind = |k: usize, d: &Dirs| -> Sel {
+        match k {
+            0 => Sel::Field { alias: None, name: "i".into(), args: vec![], dirs: d.clone(), sub: vec![] },
+            1 => Sel::Spread { name: "F".into(), dirs: d.clone() },
+            2 => Sel::Inline { cond: Some("Query".into()), dirs: d.clone(), sub: vec![field_sel("i", vec![])] },
+            3 => Sel::Inline { cond: None, dirs: d.clone(), sub: vec![field_sel("s", vec![])] },
+            _ => Sel::Inline { cond: None, dirs: d.clone(), sub: vec![Sel::Spread { name: "F".into(), dirs: Dirs::default() }] },
+        }
+    };
+    let frag = Frag { name: "F".into(), cond: "Query".into(), sub: vec![field_sel("i", vec![]), field_sel("b", vec![])] };
+    for k1 in 0..5 { for d1 in &combos[..n_combos] { for k2 in 0..5 { for d2 in &combos[..n_combos] {
+        let sels = vec![alias_sel("first", "__typename", vec![]), kind(k1, d1), kind(k2, d2), alias_sel("last", "__typename", vec![])];
+        let uses_f = [k1, k2].iter().any(|k| *k == 1 || *k == 4);
+        let mut used = BTreeSet::new();
+        sel_vars(&sels, &mut used);
+        let vars = var_pool().into_iter().filter(|(d, _)| used.contains(&d.name)).map(|(d, _)| d).collect();
+        let op = Op { vars, sels, frags: if uses_f { vec![frag.clone()] } else { vec![] } };
+        ctx.stat("family:directives");
+        one(ctx, c, &op, 0, HashMap::new(), "family");
+    } } } }
+}
+
+/// Family "fragment-reuse": the same named fragment spread again — in a sibling field's selection set, one level
+/// down, in every item of a list, in both of two merged fields, before / after a fragment that spreads it.
+fn family_fragment_reuse(ctx: &mut Ctx, c: &Compiled) {
+    let sp = |n: &str| Sel::Spread { name: n.into(), dirs: Dirs::default() };
+    let on = |t: &str, sub: Vec<Sel>| Sel::Inline { cond: Some(t.into()), dirs: Dirs::default(), sub };
+    let fq = Frag { name: "FQ".into(), cond: "Query".into(), sub: vec![field_sel("i", vec![]), field_sel("s", vec![])] };
+    let fq2 = Frag { name: "FQ2".into(), cond: "Query".into(), sub: vec![sp("FQ"), field_sel("b", vec![])] };
+    let fnode = Frag { name: "FN".into(), cond: "Node".into(), sub: vec![field_sel("id", vec![])] };
+    let fdog = Frag { name: "FD".into(), cond: "Dog".into(), sub: vec![field_sel("bark", vec![]), sp("FN")] };
+    let fpet = Frag { name: "FP".into(), cond: "Pet".into(), sub: vec![field_sel("__typename", vec![]), sp("FD")] };
+    let templates: Vec<(Vec<Sel>, Vec<Frag>)> = vec![
+        (vec![alias_sel("a", "self", vec![sp("FQ")]), alias_sel("b", "self", vec![sp("FQ")])], vec![fq.clone()]),
+        (vec![sp("FQ"), field_sel("self", vec![sp("FQ")])], vec![fq.clone()]),
+        (vec![field_sel("nself", vec![sp("FQ"), field_sel("self", vec![sp("FQ")])]), sp("FQ")], vec![fq.clone()]),
+        (vec![sp("FQ"), sp("FQ2")], vec![fq.clone(), fq2.clone()]),
+        (vec![sp("FQ2"), sp("FQ")], vec![fq.clone(), fq2.clone()]),
+        (vec![sp("FQ2"), sp("FQ2"), field_sel("self", vec![sp("FQ2"), sp("FQ")])], vec![fq.clone(), fq2.clone()]),
+        (vec![field_sel("pets", vec![sp("FN")]), field_sel("npets", vec![sp("FN")])], vec![fnode.clone()]),
+        (vec![field_sel("pets", vec![sp("FP"), sp("FN")])], vec![fpet.clone(), fdog.clone(), fnode.clone()]),
+        (vec![field_sel("pets", vec![sp("FN"), sp("FP")])], vec![fpet.clone(), fdog.clone(), fnode.clone()]),
+        (vec![field_sel("pets", vec![sp("FD"), on("Cat", vec![sp("FN")])]), field_sel("pets", vec![on("Dog", vec![sp("FN")]), sp("FD")])], vec![fdog.clone(), fnode.clone()]),
+        (vec![field_sel("nodes", vec![sp("FN"), on("Dog", vec![sp("FD")]), sp("FN")]), field_sel("dog", vec![sp("FD"), field_sel("mate", vec![sp("FD")])])], vec![fdog.clone(), fnode.clone()]),
+        (vec![field_sel("pet", vec![sp("FN")]), field_sel("pet", vec![sp("FN"), sp("FD")]), alias_sel("p2", "pet", vec![sp("FD")])], vec![fdog.clone(), fnode.clone()]),
+    ];
+    let obj = |t: &str| RV::Object(t.into(), 0);
+    let lists = [
+        vec![obj("Dog"), obj("Cat"), obj("Dog")],
+        vec![obj("Cat"), obj("Dog")],
+        vec![obj("Dog"), obj("Dog"), obj("Dog")],
+    ];
+    for (sels, frags) in &templates {
+        for l in &lists {
+            for single in ["Dog", "Cat"] {
+                let mut forced = HashMap::new();
+                for f in ["pets", "npets", "nodes"] { forced.insert(f.to_string(), RV::List(l.clone())); }
+                forced.insert("pet".to_string(), obj(single));
+                let op = Op { vars: vec![], sels: sels.clone(), frags: frags.clone() };
+                ctx.stat("family:fragment-reuse");
+                one(ctx, c, &op, 0, forced, "family");
+            }
+        }
+    }
+}
+
 pub fn run(ctx: &mut Ctx) {
     let a = compile_schema(schema_a());
     let b = compile_schema(schema_b());
@@ -1053,6 +1277,13 @@ pub fn run(ctx: &mut Ctx) {
             }
         }
     }
+
+    // ── systematic families (audit G5) ──
+    let cc = compile_schema(schema_c());
+    family_directives(ctx, &a);
+    family_fragment_reuse(ctx, &a);
+    family_propagation(ctx, &cc);
+    family_int_wrappings(ctx, &cc);
 
     // ── random operations × random worlds ──
     let n = if ctx.thorough { 150_000 } else { 12_000 };
